@@ -142,7 +142,7 @@ def main(argv):
                 s *= hi - lo + 1
             return s
 
-        cand = sorted([ob for ob in obs if ob.get("engine") == "zsym" and results[ob["name"]]["verdict"] == "CONFIRMED" and results[ob["name"]]["paths"] <= 40], key=_size)
+        cand = sorted([ob for ob in obs if ob.get("engine") == "zsym" and ob["harness"] == "sim" and results[ob["name"]]["verdict"] == "CONFIRMED" and results[ob["name"]]["paths"] <= 40], key=_size)
         pick = cand[:: max(1, len(cand) // ncross)][:ncross]
         pool = ctx.Pool(NPROC, maxtasksperchild=1)
         try:
